@@ -108,6 +108,14 @@ def programs(thorough):
     for sp in (("punique", 3, "ident", "last"), ("punique", 3, "ident", "first"), ("punique", 3, "parity", "last"),
                ("partition", 3, None), ("sw", 3, False), ("unique", 2, "ident", True), ("unique", 2, "ident", False)):
         progs.append(("deep", prog_chain((sp,)), ("s",)))
+    # twins: two independent copies of the same node fed from separate sources must not influence
+    # each other (state hoisted to class or module scope shows up here and nowhere else)
+    for spec, it, ot in UNARY:
+        if "i" in it:
+            progs.append(("twin", (("src", "a"), ("node", "x", spec, ("a",)), ("src", "b"), ("node", "y", spec, ("b",))), ("a", "b")))
+    for j in JOINS[:2] + JOINS[5:6] + JOINS[-1:]:
+        progs.append(("twin", (("src", "a"), ("src", "b"), ("node", "x", j, ("a", "b")), ("src", "c"), ("src", "d"), ("node", "y", j, ("c", "d"))),
+                      ("a", "b", "c", "d")))
     # fan-out in both attachment orders
     fans = [(("map", "inc"), ("filter", "odd")), (("acc", "add", None, False), ("sw", 2, True)), (("unique", 1, "parity", True), ("partition", 2, None)),
             (("slice", 1, None, 2), ("collect",)), (("map", "pair"), ("punique", 2, "parity", "last"))]
@@ -199,7 +207,7 @@ def run_space(ctx, pid, mode, depth, values, thorough, engine_note, clauses_doc)
     if getattr(ctx, "only", None):
         progs = [p for p in progs if ctx.only in repr(p)]
     items = [(shape, prog, entries, mode,
-              (depth if len(entries) < 3 else min(depth, 3)) + (2 if shape == "deep" else 0),
+              (depth if len(entries) < 3 else min(depth, 3)) + (2 if shape == "deep" else 0) - (1 if shape == "twin" and len(entries) < 3 else 0),
               values if shape != "deep" else (1, 2, 3)) for shape, prog, entries in progs]
     rep = Report()
     tot = dict(states=0, transitions=0, runs=0, nontrivial=0)
